@@ -203,7 +203,7 @@ def run(ctx):
     # ---- Hessdiag for every supported order with a user step generator that serves all of them (the loop `for order in (2, 4, 6)` a
     # user writes with one MinStepGenerator): calibrated accuracy envelope per (method, order) = 100 x the worst error / scale seen on
     # the unchanged tree over 2400 random cases of this family (tools: /verif/DESIGN.md section 0.4), fresh generator or shared one alike
-    from numdifftools.step_generators import MinStepGenerator
+    from numdifftools.step_generators import MinStepGenerator, MaxStepGenerator
     worst_hd = {}
     for it in range(ctx.budget(60, 600)):
         n = rng.randint(1, 6)
@@ -237,6 +237,39 @@ def run(ctx):
                               envelope=100 * HESSDIAG_WORST[(meth, order)], a=a.tolist(), b=b.tolist(), Q=Q.tolist(), hessdiag=hd.tolist(),
                               exact=np.diag(exact).tolist())
                 break
+    # ---- one generator with a per-variable base step (an ndarray the caller owns) serving Hessian and Hessdiag repeatedly at points with
+    # |x_i| > e - 1 (nominal step log1p|x_i| > 1): every repetition returns what the first evaluation returned, bit for bit, the caller's
+    # array is left alone (accuracy then is that of the first evaluation, which the other families bound)
+    for it in range(ctx.budget(30, 300)):
+        n = rng.randint(1, 4)
+        meth = rng.choice(['central', 'forward', 'backward'])
+        x = np.array([rng.choice([-1, 1]) * rng.uniform(1.8, 6.0) if rng.random() < 0.7 else rng.uniform(-1.5, 1.5) for _ in range(n)])
+        a, b = np.array([rng.uniform(-0.3, 0.3) for _ in range(n)]), np.array([rng.uniform(-1, 1) for _ in range(n)])
+        f = lambda t: np.exp(np.dot(a, t)) + np.sin(np.dot(b, t)) + np.dot(a, t) * np.dot(b, t)
+        exact = np.exp(a @ x) * np.outer(a, a) - np.sin(b @ x) * np.outer(b, b) + np.outer(a, b) + np.outer(b, a)
+        scale = 1 + np.abs(exact).max()
+        user = np.array([rng.choice([0.01, 0.02, 0.005]) for _ in range(n)])
+        keep = user.copy()
+        gcls = rng.choice([MinStepGenerator, MinStepGenerator, MaxStepGenerator])
+        shared = gcls(base_step=user, step_ratio=2.0, num_steps=rng.choice([3, 4])) if gcls is MinStepGenerator else \
+            gcls(base_step=user * 50, step_ratio=2.0, num_steps=8)
+        ctx.tried(('array-base-step', n, meth, tuple(x[:2])))
+        rep = dict(n=n, method=meth, x=x.tolist(), base_step=keep.tolist(), generator=gcls.__name__, a=a.tolist(), b=b.tolist())
+        try:
+            with warnings.catch_warnings():
+                warnings.simplefilter('ignore')
+                hobj, dobj = nd.Hessian(f, method=meth, step=shared), nd.Hessdiag(f, method=meth, step=shared)
+                first_h, first_d = hobj(x), dobj(x)
+                for _r in range(rng.randint(1, 5)):
+                    last_d, last_h = dobj(x), hobj(x)
+        except Exception as ex:
+            ctx.violation('Hessian / Hessdiag with a per-variable base step raised %r' % ex, **rep)
+            continue
+        if not np.array_equal(user, keep):
+            ctx.violation("the caller's base_step array was modified by Hessian / Hessdiag calls", now=user.tolist(), **rep)
+        elif not (np.array_equal(first_h, last_h) and np.array_equal(first_d, last_d)):
+            ctx.violation('a repeated Hessian / Hessdiag evaluation with the same generator differs from the first one',
+                          first=np.ravel(first_h).tolist(), last=np.ravel(last_h).tolist(), first_diag=first_d.tolist(), last_diag=last_d.tolist(), **rep)
     # ---- default configuration (no step argument at all): what most users run; calibrated envelope per method / order
     worst_d = 0.0
     for it in range(ctx.budget(60, 600)):
